@@ -2,16 +2,20 @@
 """Hand-written sensitivity mutants (DESIGN.md section 6).
 
   tools/mutants.py list
-  tools/mutants.py run [ID ...]      apply each mutant to /repo's working tree, run the
-                                     repository's own tests and the quick tier of the
-                                     listed properties, revert, and record the outcome in
-                                     /verif/mutants/results.json
+  tools/mutants.py run [--wt DIR] [--part K/N] [--all] [ID ...]
+                                     apply each mutant to a scratch git worktree of /repo
+                                     (DIR, default /tmp/mut/w0, created if missing - never
+                                     /repo itself), run the repository's own tests and the
+                                     quick tier of the listed properties against that
+                                     worktree (VERIF_REPO), revert, and record the outcome in
+                                     /verif/mutants/results.json (results.K.json with --part)
+  tools/mutants.py merge             merge results.K.json into results.json
 
 A mutant is (id, properties expected to catch it, file, old text, new text[, expect]).
 expect = "kill" (default) or "survive" (behaviour-preserving change that must NOT alarm).
 """
 import json, os, subprocess, sys, time
-REPO = "/repo"
+REPO = "/tmp/mut/w0"
 VERIF = os.path.dirname(os.path.dirname(os.path.abspath(__file__)))
 ENV = dict(os.environ, GOFLAGS="-mod=mod", GOPROXY="off", GOSUMDB="off", GOTOOLCHAIN="local")
 
@@ -155,7 +159,9 @@ def run_one(mu, all_props=False):
             props = ["C%02d" % i for i in range(1, 17)]
         for p in props:
             t0 = time.time()
-            rc, out = sh([os.path.join(VERIF, "check"), p, "--tier", "quick"], cwd=VERIF, timeout=1800)
+            env = dict(ENV, VERIF_REPO=REPO, VERIF_OUTDIR=REPO + ".out")
+            r = subprocess.run([os.path.join(VERIF, "check"), p, "--tier", "quick"], cwd=VERIF, env=env, stdout=subprocess.PIPE, stderr=subprocess.STDOUT, text=True, timeout=1800)
+            rc, out = r.returncode, r.stdout
             res["checks"][p] = dict(exit=rc, wall=round(time.time() - t0, 1), tail=[l for l in out.splitlines() if l.startswith(("VIOLATION", "INCONCLUSIVE", "OK "))][-1:] )
         killed = [p for p, v in res["checks"].items() if v["exit"] == 1]
         res["killed_by"] = killed
@@ -165,26 +171,51 @@ def run_one(mu, all_props=False):
         clean()
 
 def main():
+    global REPO
     if len(sys.argv) < 2 or sys.argv[1] == "list":
         for mu in M:
             print(mu["id"], mu["props"], mu["expect"], mu["note"])
         return
-    ids = [a for a in sys.argv[2:] if not a.startswith("--")]
-    allp = "--all" in sys.argv
-    rp = os.path.join(VERIF, "mutants", "results.json")
+    os.makedirs(os.path.join(VERIF, "mutants"), exist_ok=True)
+    if sys.argv[1] == "merge":
+        res = {}
+        d = os.path.join(VERIF, "mutants")
+        for fn in sorted(os.listdir(d)):
+            if fn.startswith("results.") and fn != "results.json" and fn.endswith(".json"):
+                res.update(json.load(open(os.path.join(d, fn))))
+        order = {mu["id"]: i for i, mu in enumerate(M)}
+        res = dict(sorted(res.items(), key=lambda kv: order.get(kv[0], 999)))
+        json.dump(res, open(os.path.join(d, "results.json"), "w"), indent=1)
+        for k, r in res.items():
+            print(k, r.get("status"), r.get("killed_by"), r.get("expect"))
+        return
+    argv = sys.argv[2:]
+    part = None
+    if "--wt" in argv:
+        i = argv.index("--wt"); REPO = os.path.abspath(argv[i + 1]); del argv[i:i + 2]
+    if "--part" in argv:
+        i = argv.index("--part"); part = tuple(int(x) for x in argv[i + 1].split("/")); del argv[i:i + 2]
+    ids = [a for a in argv if not a.startswith("--")]
+    allp = "--all" in argv
+    if REPO.rstrip("/") == "/repo":
+        print("refusing to mutate /repo itself"); sys.exit(2)
+    if not os.path.isdir(REPO):
+        subprocess.run(["git", "-C", "/repo", "worktree", "add", "-q", "--detach", REPO, "HEAD"], check=True)
+    rp = os.path.join(VERIF, "mutants", "results.json" if not part else "results.%d.json" % part[0])
     results = json.load(open(rp)) if os.path.exists(rp) else {}
     rc, out = sh("git status --short", cwd=REPO)
     if out.strip():
-        print("refusing: /repo has uncommitted changes"); sys.exit(2)
-    for mu in M:
+        print("refusing: %s has uncommitted changes" % REPO); sys.exit(2)
+    for idx, mu in enumerate(M):
         if ids and mu["id"] not in ids:
+            continue
+        if part and idx % part[1] != part[0]:
             continue
         r = run_one(mu, allp)
         results[mu["id"]] = r
         print(json.dumps({k: r.get(k) for k in ("id", "status", "killed_by", "baseline", "expect")}), flush=True)
         json.dump(results, open(rp, "w"), indent=1)
-    # replays written while a mutant was applied are not regression material
-    sh("git checkout -- replays 2>/dev/null; git clean -fdq replays evidence", cwd=VERIF)
+    sh("rm -rf %s.out" % REPO)
 
 if __name__ == "__main__":
     main()
